@@ -1,4 +1,4 @@
-import ZvbiModel.Cache.LemmasHeld
+import ZvbiModel.Cache.LemmasHeld2
 import ZvbiModel.Cache.LemmasWitness
 /-!
 # C10 - the Teletext cache is a coherent, bounded, reference-safe page store
@@ -40,27 +40,29 @@ theorem inv_reachable (ops : List Op) : Cache.Inv (run init ops) := by
 example : Cache.Inv (run init [.addNet, .put 0 ⟨0x100, 0, 0, 0, 0, 7⟩, .unref 0, .chsw 0]) := inv_reachable _
 
 /-- The per-page counter `n_subpages` is the number of cached versions of the page as long as there are
-    fewer than 256 of them (it is a `uint8_t`). -/
+    fewer than 65536 of them (it is a `uint16_t` since 5e41e82; `Inv` states it modulo 65536). -/
 theorem nsub_exact_partial (ops : List Op) (n : Net) (hn : n ∈ (run init ops).nets) (pg : Nat)
-    (hsmall : (run init ops).pages.countP (fun p => p.net = n.id ∧ p.pgno = pg) < 256) :
+    (hsmall : (run init ops).pages.countP (fun p => p.net = n.id ∧ p.pgno = pg) < 65536) :
     (n.getStat pg).nSub = (run init ops).pages.countP (fun p => p.net = n.id ∧ p.pgno = pg) := by
   have := (inv_reachable ops).nSub n hn pg
   omega
 
-/-- Full strength ("counters equal the number of stored pages") is false: after 256 alternations of a
-    subpage subcode and a clock-time subcode on one BCD page 256 copies are cached and the counter reads 0.
+/-- The bound that would make the hypothesis above (and that of `limit_unreachable_0_2`) a theorem - at most
+    80 cached versions per page number, asserted by cache.c under CACHE_CONSISTENCY - does not hold: 81
+    alternations of a subpage subcode and a clock-time subcode on one BCD page leave 81 retrievable copies, all
+    under one key (finding F17; the count grows by one per pair without bound, the `uint16_t` wraps at 65536).
     Replayed on the C code: corpus/C10/F17_dup_subcode_nsub_wrap.ops. -/
-theorem nsub_exact_counterexample :
+theorem page_bound_counterexample :
     ¬ (∀ (ops : List Op) (n : Net), n ∈ (run init ops).nets → ∀ pg,
-        (n.getStat pg).nSub = (run init ops).pages.countP (fun p => p.net = n.id ∧ p.pgno = pg)) := by
+        (run init ops).pages.countP (fun p => p.net = n.id ∧ p.pgno = pg ∧ p.subno = 0x102 ∧ p.pri ≠ .zombie) ≤ 80) := by
   intro h
-  have w := nsub_wrap_witness
-  cases hnets : (run init (.addNet :: pairOps 256 0)).nets with
+  have w := page_bound_witness
+  cases hnets : (run init (.addNet :: pairOps 81 0)).nets with
   | nil => rw [hnets] at w; cases w
   | cons n t =>
     rw [hnets] at w
     simp only [List.map_cons, List.cons.injEq, Prod.mk.injEq] at w
-    have hn : n ∈ (run init (.addNet :: pairOps 256 0)).nets := by rw [hnets]; exact List.mem_cons_self
+    have hn : n ∈ (run init (.addNet :: pairOps 81 0)).nets := by rw [hnets]; exact List.mem_cons_self
     have h1 := h _ n hn 0x101
     omega
 
@@ -132,20 +134,33 @@ theorem unique_key_counterexample :
 
 /-! ## reference safety, channel switch, teardown -/
 
-/-- A page held by a caller stays in the cache, content and reference count unchanged, through every
-    operation that does not itself take or release page references: stores (also when it is replaced: it
-    becomes a zombie), network add / recycle / unref, channel switch, purge, memory-limit change with
-    eviction. -/
-theorem held_page_intact_partial (ops : List Op) (op : Op)
-    (hop : match op with
-      | .get .. | .ref .. | .unref .. | .isCached .. | .foreach .. => False
-      | _ => True)
-    (p : Page) (hp : p ∈ (run init ops).pages) (hr : 0 < p.ref) :
+/-- A page held by a caller stays intact through ANY operation: it is still in the cache with the same
+    content (network, page and subpage number, function, designation sets, payload token), and its reference count
+    changes only by the references the operation itself takes or releases on it - stores (also when the page is
+    replaced: it becomes a zombie), look-ups, `cache_page_ref`, `vbi_is_cached`, the page walk (whose internal
+    get / unref pairs are accounted for), network add / recycle / unref, channel switch, purge, eviction.
+    The only way out is the release of its last reference. -/
+theorem held_page_intact (ops : List Op) (op : Op) (p : Page) (hp : p ∈ (run init ops).pages) (hr : 0 < p.ref) :
+    (op = .unref p.id ∧ p.ref = 1) ∨
     ∃ q ∈ (step (run init ops) op).1.pages, q.id = p.id ∧ q.net = p.net ∧ q.pgno = p.pgno ∧ q.subno = p.subno
-      ∧ q.func = p.func ∧ q.x26 = p.x26 ∧ q.x28 = p.x28 ∧ q.tag = p.tag ∧ q.ref = p.ref := by
-  obtain ⟨q, hq, e⟩ := held_step (inv_iff_good.1 (inv_reachable ops)) op hop p hp hr
-  obtain ⟨e1, e2, e3, e4, e5, e6, e7, e8, e9⟩ := e
-  exact ⟨q, hq, e1.symm, e2.symm, e3.symm, e4.symm, e5.symm, e6.symm, e7.symm, e8.symm, e9.symm⟩
+      ∧ q.func = p.func ∧ q.x26 = p.x26 ∧ q.x28 = p.x28 ∧ q.tag = p.tag
+      ∧ p.ref ≤ q.ref + (if op = .unref p.id then 1 else 0) := by
+  rcases held_full_step (good_runFrom good_init ops) op p hp hr with h | ⟨q, hq, c, r⟩
+  · exact Or.inl h
+  · obtain ⟨e1, e2, e3, e4, e5, e6, e7, e8⟩ := c
+    exact Or.inr ⟨q, hq, e1.symm, e2.symm, e3.symm, e4.symm, e5.symm, e6.symm, e7.symm, e8.symm, r⟩
+
+/-- ... and through any further history that does not release a reference on it. -/
+theorem held_page_intact_history (ops more : List Op) (p : Page) (hp : p ∈ (run init ops).pages) (hr : 0 < p.ref)
+    (hno : ∀ op ∈ more, op ≠ .unref p.id) :
+    ∃ q ∈ (run (run init ops) more).pages, q.id = p.id ∧ q.net = p.net ∧ q.pgno = p.pgno ∧ q.subno = p.subno
+      ∧ q.func = p.func ∧ q.x26 = p.x26 ∧ q.x28 = p.x28 ∧ q.tag = p.tag ∧ p.ref ≤ q.ref := by
+  obtain ⟨q, hq, c, r⟩ := held_history (good_runFrom good_init ops) more p hp hr hno
+  obtain ⟨e1, e2, e3, e4, e5, e6, e7, e8⟩ := c
+  exact ⟨q, hq, e1.symm, e2.symm, e3.symm, e4.symm, e5.symm, e6.symm, e7.symm, e8.symm, r⟩
+
+example : ∃ q ∈ (run (run init [.addNet, .put 0 ⟨0x100, 0, 0, 0, 0, 7⟩]) [.put 0 ⟨0x100, 0, 0, 0, 0, 8⟩, .chsw 0, .purge]).pages,
+    q.tag = 7 ∧ q.ref = 1 := by decide
 
 /-- After `vbi_chsw_reset` no page is reachable through the decoder's (new) network: it has no page at all,
     and every look-up in it fails until something is stored. -/
@@ -169,19 +184,10 @@ example : (step (run init [.addNet, .put 0 ⟨0x100, 0, 0, 0, 0, 7⟩, .unref 0,
 
 /-! ## statements kept visible, not proved -/
 
-/-- FULL statement of `held_page_intact`: through ANY operation other than the release of its last
-    reference a held page keeps its content and its reference count changes only by the references the
-    operation takes or releases on it.  Proved above for all operations except get / ref / unref /
-    is-cached / page walk (for those the invariant `inv_step` still shows the page is not freed while
-    `ref > 0`: it stays on the `referenced` list). -/
-def held_page_intact_full : Prop :=
-  ∀ (ops : List Op) (op : Op) (p : Page), p ∈ (run init ops).pages → 0 < p.ref →
-    (op = .unref p.id ∧ p.ref = 1) ∨
-    ∃ q ∈ (step (run init ops) op).1.pages, q.id = p.id ∧ q.net = p.net ∧ q.pgno = p.pgno ∧ q.subno = p.subno
-      ∧ q.func = p.func ∧ q.x26 = p.x26 ∧ q.x28 = p.x28 ∧ q.tag = p.tag ∧ p.ref ≤ q.ref + (if op = .unref p.id then 1 else 0)
-
-/-- FULL statement of `hi_subno_agrees`: `vbi_cache_hi_subno` is the highest subpage number stored for the
-    page since the statistics were initialised. -/
+/-- FULL statement of `hi_subno_agrees`: `vbi_cache_hi_subno` (`subno_max`) bounds the subpage numbers of the cached
+    versions of the page.  Not proved: it needs one more invariant clause threaded through every primitive, and since
+    5e41e82 it can only hold under the hypothesis of `nsub_exact_partial` (the range restarts when `n_subpages == 1`,
+    which is also true at 65537 copies).  Validated by the oracle (`hisubno` against the range rule) on every run. -/
 def hi_subno_agrees_full : Prop :=
   ∀ (ops : List Op) (n : Net) (p : Page), n ∈ (run init ops).nets → p ∈ (run init ops).pages → p.net = n.id →
     p.subno ≤ (n.getStat p.pgno).subMax
